@@ -13,6 +13,14 @@ func Exec(prop string, raw json.RawMessage) (*evid.Violation, error) {
 	if err := json.Unmarshal(raw, &c); err != nil {
 		return nil, err
 	}
+	for i := range c.Prelude {
+		pc := cloneCase(&c.Prelude[i])
+		if pc.Sched != nil {
+			execute(pc, newReplay(pc.Sched), false, false)
+		} else {
+			execute(pc, nil, false, false)
+		}
+	}
 	for i := 0; i < c.Warm; i++ {
 		cc := cloneCase(&c)
 		switch {
@@ -22,12 +30,12 @@ func Exec(prop string, raw json.RawMessage) (*evid.Violation, error) {
 			execute(cc, nil, false, false)
 		}
 	}
-	rc := &refCache{m: map[uint64]*refResult{}}
+	rc := &refCache{m: map[uint64]*refResult{}, pristine: c.PristineRef}
 	var vs []verdict
 	switch prop {
 	case "C02":
 		wr := execute(&c, nil, true, true)
-		vs = judge(&c, wr, rc, true, true)
+		vs = judge(&c, wr, rc, true, !c.PristineRef)
 	case "C06":
 		wr := execute(&c, nil, true, false)
 		vs = judge06(&c, wr, rc)
@@ -36,7 +44,7 @@ func Exec(prop string, raw json.RawMessage) (*evid.Violation, error) {
 			return nil, fmt.Errorf("C17 case without a schedule")
 		}
 		wr := execute(&c, newReplay(c.Sched), true, false)
-		vs = judge(&c, wr, rc, false, true)
+		vs = judge(&c, wr, rc, false, !c.PristineRef)
 	default:
 		return nil, fmt.Errorf("callsim does not serve %s", prop)
 	}
@@ -58,13 +66,16 @@ func dropCall(c *Case, ti, ci int) *Case {
 	n := cloneCase(c)
 	calls := n.World.Tasks[ti].Calls
 	for j := ci + 1; j < len(calls); j++ {
-		if calls[j].Ref == ci {
+		if calls[j].Ref == ci || calls[j].RetryOf == ci+1 {
 			return nil
 		}
 	}
 	for j := ci + 1; j < len(calls); j++ {
 		if calls[j].Ref > ci {
 			calls[j].Ref--
+		}
+		if calls[j].RetryOf > ci+1 {
+			calls[j].RetryOf--
 		}
 	}
 	n.World.Tasks[ti].Calls = append(calls[:ci:ci], calls[ci+1:]...)
@@ -114,6 +125,27 @@ func Minimise(prop string, v evid.Violation, still func(json.RawMessage) bool) (
 		budget--
 		raw, _ := json.Marshal(n)
 		return still(raw)
+	}
+	// 0. the prelude (worlds the worker executed before): drop it whole, else entry by entry
+	if len(cur.Prelude) > 0 {
+		n := cloneCase(cur)
+		n.Prelude = nil
+		if try(n) {
+			log = append(log, fmt.Sprintf("dropped the prelude of %d earlier worlds (violation does not depend on process history)", len(cur.Prelude)))
+			cur = n
+		} else {
+			for i := 0; i < len(cur.Prelude); {
+				n := cloneCase(cur)
+				n.Prelude = append(n.Prelude[:i:i], n.Prelude[i+1:]...)
+				if try(n) {
+					log = append(log, fmt.Sprintf("dropped prelude world %d", i))
+					cur = n
+				} else {
+					i++
+				}
+			}
+			log = append(log, fmt.Sprintf("violation needs %d earlier world(s) in the same process", len(cur.Prelude)))
+		}
 	}
 	// 1. empty whole tasks
 	for ti := range cur.World.Tasks {
